@@ -379,7 +379,13 @@ static std::string sp_dump(const upa::url& u, std::string& preds) {
 }
 
 static std::string obj_line(const upa::url& u, std::string& preds) {
-    return dump(u) + sp_dump(u, preds);
+    std::string s = dump(u) + sp_dump(u, preds);
+    if (u.is_valid()) {
+        // the raw offsets, zeros of never-started parts included (compared with the representation-level object model)
+        s += " rpe=";
+        for (int i = 0; i < upa::url::PART_COUNT; ++i) { if (i) s += ','; s += std::to_string(access::part_end(u, i)); }
+    }
+    return s;
 }
 
 // C05 probe battery: the object against a fresh parse of its own href
